@@ -9,7 +9,7 @@ pub fn props() -> Vec<Prop> {
         id: "C02",
         run: c02,
         tools: None,
-        rule: "differential monitor: (a) every in-domain reference state of the bounded namespace (names {a,b}, depth 2; every symlink resolves to an existing non-link entry) is materialised directly on disk with std::fs and inside a Memfs (verified by the observers before use), then every call of the finite alphabet (every mutator and query x every path incl. '/', absent paths; move_p/copy/symlink over all ordered pairs; builder options) whose arguments do not pass through a symlink is run on both; success-or-failure and returned values must be equal and the tree seen by the std::fs observer (names, kinds, bytes, link targets made absolute, permission bits) must equal the Memfs snapshot; (b) seeded multi-step histories of 40-120 calls inside one sandbox, continued while the state stays in the domain. Even shards run as root, odd shards as uid 1000 (whose ids equal Memfs's default owner, so owner()/uid()/gid() are compared there; under root they are not). umask 022. distinct_nontrivial = distinct (uid configuration, operation, argument classes, outcome class) tuples.",
+        rule: "differential monitor: (a) every in-domain reference state of the bounded namespace (names {a,b}, depth 2; every symlink resolves to an existing non-link entry) is materialised directly on disk with std::fs and inside a Memfs (verified by the observers before use), then every call of the finite alphabet (every mutator and query x every path incl. '/', absent paths; move_p/copy/symlink over all ordered pairs; builder options) whose arguments do not pass through a symlink is run on both; success-or-failure and returned values must be equal and the tree seen by the std::fs observer (names, kinds, bytes, link targets made absolute, permission bits) must equal the Memfs snapshot; (b) seeded multi-step histories of 40-120 calls inside one sandbox, continued while the state stays in the domain. Even shards run as root, odd shards as uid 1000 (whose ids equal Memfs's default owner, so owner()/uid()/gid() are compared there; under root they are not). umask 022. distinct_nontrivial = distinct (uid configuration, operation, argument classes, outcome class) tuples. Later additions: every second enumerated state carries position dependent permission bits; the alphabet holds builders that are created under one cwd and executed under another, optionally twice (Op::Held); readlink results are compared through the navigation law clean(dir(link)/text); a history ends when the kernel cwd and the Memfs cwd stop naming the same directory; copies from the root, follow-copies of trees that contain links (C09 finding) and copies into the own subtree that overwrite a source entry are outside the compared domain (counted).",
         assumptions: &[
             "error kinds are not compared (the statement asks for the same success-or-failure outcome and returned values)",
             "timestamps and owners of the trees are not compared; under uid 1000 only modes that keep u+rwx on directories / u+rw on files and chown-to-self are generated (permission enforcement is an OS behaviour Memfs does not model)",
